@@ -237,6 +237,8 @@ def distribute : Nat → List (PCell F) → List (PCell F)
     | some i => distribute n (bump cs i)
     | none => cs
 
+def sumInt (l : List Int) : Int := l.sum
+
 /-- boxlayout.go:58-92: the padding each cell receives: `avail` = extent of the layout's view along the
 axis, `used` = sum of the preferred extents. -/
 def pads (avail used : Int) (fills : List F) : List Int :=
@@ -244,7 +246,7 @@ def pads (avail used : Int) (fills : List F) : List Int :=
   let extra := if avail - used < 0 then 0 else avail - used
   let cells := fills.map (shareCell extra totf)
   let resid0 := if eq totf (zero : F) then 0 else extra
-  let resid := resid0 - (cells.map (·.pad)).foldl (· + ·) 0
+  let resid := resid0 - sumInt (cells.map (·.pad))
   ((distribute resid.toNat cells).map (·.pad))
 
 /-- one child as the layout sees it: preferred size and fill factor -/
@@ -260,8 +262,6 @@ structure Place where
   w : Int
   h : Int
 deriving DecidableEq, Repr, Inhabited
-
-def sumInt (l : List Int) : Int := l.foldl (· + ·) 0
 
 /-- boxlayout.go:94-104 / 159-168: positions from extents (running sum) -/
 def placeAlong (horizontal : Bool) (vw vh : Int) : Int → List Int → List Place
